@@ -5,6 +5,7 @@ use chunk_io::ChunkDeserializationError;
 use messages::MessagePayload;
 use std::cmp::min;
 use std::collections::HashMap;
+use std::io;
 use std::io::Cursor;
 use std::mem;
 
@@ -377,7 +378,17 @@ impl ChunkDeserializer {
     ) -> Result<ParseStageResult, ChunkDeserializationError> {
         let mut length = self.current_header.message_length as usize;
         let current_payload_length = self.current_payload_data.len();
-        let remaining_bytes = length - current_payload_length;
+        let remaining_bytes = match length.checked_sub(current_payload_length) {
+            Some(x) => x,
+            None => {
+                // The peer announced a message length that is smaller than the amount of
+                // payload we have already received for this message
+                return Err(ChunkDeserializationError::Io(io::Error::new(
+                    io::ErrorKind::InvalidData,
+                    "chunk header announced a message length smaller than the payload already received",
+                )));
+            }
+        };
         if length > self.max_chunk_size as usize {
             length = min(remaining_bytes, self.max_chunk_size as usize);
         }
